@@ -9,6 +9,7 @@ from core.ctx import REPO
 from . import _c03_expr as X
 from . import _c03_aux as AUX
 from . import _c03_aux2 as AUX2
+from . import _c03_aux3 as AUX3
 
 ID = "C03"
 LEAN_MODULES = ["NiftyVerif.Core.Proto", "NiftyVerif.Model.Expr", "NiftyVerif.Model.ExprIO", "NiftyVerif.Props.C03Ptw", "NiftyVerif.Props.C03Sinc", "NiftyVerif.Props.C03", "NiftyVerif.Props.C03Adj", "NiftyVerif.Props.C03Complex", "NiftyVerif.Model.Cplx"]
@@ -433,6 +434,8 @@ def oracle(case):
     """the property on the REAL code only"""
     if case.get("aux") in ("creal", "jaxop", "mlin"):
         return AUX2.oracle(case)
+    if case.get("aux") == "spaces":
+        return AUX3.oracle(case)
     if "aux" in case:
         return AUX.oracle(case)
     if case.get("complex"):
@@ -725,6 +728,7 @@ def run(ctx):
     aux += AUX.gen(ctx.rng, ctx.n(120, 800))
     aux += AUX.gen_cmetric(ctx.rng, ctx.n(70, 600))
     aux += AUX2.gen_creal(ctx.rng, ctx.n(70, 600)) + AUX2.gen_jaxop(ctx.rng, ctx.n(10, 60)) + AUX2.gen_mlin(ctx.rng, ctx.n(40, 400))
+    aux += AUX3.gen_spaces(ctx.rng, ctx.n(88, 880))
     for c in aux:
         ctx.stat("aux:" + c["aux"])
         ctx.case(c, nontrivial=True)
